@@ -428,6 +428,22 @@ class retry_never(_RetryConditionBase):
         return False
 
 
+def _capped_exponential(
+    multiplier: float, exp_base: float, attempts: int, cap: float
+) -> float:
+    """``multiplier * exp_base**attempts`` limited to ``cap``.
+
+    A float overflow of the power (huge attempt counts) is treated as an
+    infinitely large power instead of raising.
+    """
+    try:
+        return min(multiplier * exp_base**attempts, cap)
+    except OverflowError:
+        if multiplier == 0:
+            return min(0.0, cap)
+        return cap if multiplier > 0 else float("-inf")
+
+
 class wait_fixed(_WaitStrategyBase):
     """
     Wait a fixed number of seconds between attempts.
@@ -486,7 +502,7 @@ class wait_exponential(_WaitStrategyBase):
     def __call__(self, attempts: int, *, seed: int | None = None) -> float:
         return max(
             max(0.0, self.min),
-            min(self.multiplier * self.exp_base**attempts, self.max),
+            _capped_exponential(self.multiplier, self.exp_base, attempts, self.max),
         )
 
 
@@ -566,7 +582,7 @@ class wait_exponential_jitter(_WaitStrategyBase):
         self.jitter = jitter
 
     def __call__(self, attempts: int, *, seed: int | None = None) -> float:
-        base = min(self.initial * self.exp_base**attempts, self.max)
+        base = _capped_exponential(self.initial, self.exp_base, attempts, self.max)
         rng = random.Random(seed) if seed is not None else random
         return min(base + rng.uniform(0, self.jitter), self.max)
 
@@ -600,7 +616,7 @@ class wait_random_exponential(_WaitStrategyBase):
         rng = random.Random(seed) if seed is not None else random
         upper = max(
             max(0.0, self.min),
-            min(self.multiplier * self.exp_base**attempts, self.max),
+            _capped_exponential(self.multiplier, self.exp_base, attempts, self.max),
         )
         return rng.uniform(self.min, upper)
 
